@@ -1,4 +1,5 @@
 CONSTANTS Fields = {"A","B","C"}  MaxRules = 3  Depths = {0,1,3}  Strategies = {"dfs","bfs","ids"}  MaxSols = {1,3}  BodyKinds = {"one","and","or"}  MaxOps = 3
+CONSTANT Bads = {FALSE, TRUE}
 CONSTANT InitProg <- P1
 INIT Init
 NEXT Next
